@@ -269,8 +269,15 @@ pub fn c19_build(raw: &Raw, _tier: Tier, _sched: bool) -> Scenario {
     if knob(raw, 14) % 2 == 0 {
         b.sub_mut(shared).on_unsub_ops = vec![Op::Unsubscribe { store: 1, sub: shared }];
     }
+    // half of the cases: one SelectorSubscriber object registered on both stores as well. The
+    // selected values of the two stores are disjoint (see the end of this function), so a
+    // notification of one store can never be explained by a delivery caused by the other
+    let shared_sel = if (knob(raw, 14) >> 1) % 2 == 0 { Some(b.sub(SubKind::SelectorObj { fresh: false })) } else { None };
     let mut forwarder = None;
     for (s, _, _) in &stores {
+        if let Some(x) = shared_sel {
+            b.s.prelude.push(Op::Subscribe { store: *s, sub: x });
+        }
         b.s.prelude.push(Op::Subscribe { store: *s, sub: shared });
         let own = b.sub(SubKind::Direct);
         if *s == 0 {
@@ -326,6 +333,9 @@ pub fn c19_build(raw: &Raw, _tier: Tier, _sched: bool) -> Scenario {
             b.s.threads[th].insert(at, op);
         }
     }
+    for a in b.s.actions.iter_mut() {
+        a.sel = a.sel % 2 + 2 * a.store as u8;
+    }
     b.s.epilogue.push(Op::Stop { store: 0, via_trait: false });
     b.s.epilogue.push(Op::Stop { store: 1, via_trait: false });
     for s in 0..2 {
@@ -351,6 +361,14 @@ pub fn c19_check(scn: &Scenario, h: &History) -> Outcome {
     }
     if d.ops.values().any(|o| o.th >= 2000) {
         out.class("chained-unsubscribe-from-other-stores-callback");
+    }
+    // a selector object shared by the two stores: no notification of either store is lost,
+    // duplicated or invented because the other store uses the object at the same time
+    for sp in scn.subs.iter().filter(|x| matches!(x.kind, SubKind::SelectorObj { .. })) {
+        for m in shared_selector_check(&d, sp.id) {
+            out.viol(m);
+        }
+        out.class("selector-object-shared-by-both-stores");
     }
     let stops0: Vec<&OpRec> = d
         .ops
@@ -473,7 +491,7 @@ pub fn c19_check(scn: &Scenario, h: &History) -> Outcome {
 
 pub static C19: Profile = Profile {
     id: "C19",
-    rule: "proptest scenarios: two stores with equal or different configuration (same name half of the time, the same scripted reducer/middleware types, one subscriber object registered in both plus a private one each), 1-4 client threads operating on both (dispatch through every entry point, thunks, get_state, get_metrics, unsubscribe of the shared subscriber from store 0; a subscriber of store 0 forwarding actions into store 1 from store 0's reducer thread; in half of the cases every reducer and middleware of one store calls get_state() of the other store from inside its callbacks), store 0 stopped or dropped at a generated point while store 1 is in use. Oracle O-ISOL: the C01/C03/C07/C12 pipeline model, effect, acceptance and C18 metric equations evaluated per store on that store's sub-log; no callback of one store ever carries a component or action of the other; store 1 keeps accepting and reducing after Ret(stop store 0). Non-trivial = store 1 had an action in flight while store 0 was being stopped, or was used after it; distinct by scenario hash.",
+    rule: "proptest scenarios: two stores with equal or different configuration (same name half of the time, the same scripted reducer/middleware types, one subscriber object registered in both plus a private one each, in half of the cases also one SelectorSubscriber object registered in both, the two stores selecting disjoint values), 1-4 client threads operating on both (dispatch through every entry point, thunks, get_state, get_metrics, unsubscribe of the shared subscriber from store 0; a subscriber of store 0 forwarding actions into store 1 from store 0's reducer thread; in half of the cases every reducer and middleware of one store calls get_state() of the other store from inside its callbacks), store 0 stopped or dropped at a generated point while store 1 is in use. Oracle O-ISOL: the C01/C03/C07/C12 pipeline model, effect, acceptance and C18 metric equations evaluated per store on that store's sub-log; no callback of one store ever carries a component or action of the other; store 1 keeps accepting and reducing after Ret(stop store 0). Non-trivial = store 1 had an action in flight while store 0 was being stopped, or was used after it; distinct by scenario hash.",
     raw,
     build: c19_build,
     check: c19_check,
